@@ -16,6 +16,9 @@ RULE = (
     "frame object, and the configuration-validation cases.  Expected matrices are derived from the evaluation of "
     "the same frame with the unseen cells replaced by a seen level.  Non-trivial: the placement touches a variable "
     "that occurs in an interaction, a composite factor or a categorical effect"
+    '  Added: new data that kept non-default index labels or stores its factors as pandas categoricals, unseen '
+    'values extending a training level, designs with explicit levels= (C / T / S, also as grouping factor), an '
+    'object column mixing integer ids with a text value; expectations come from a separate reference design. '
 )
 ASSUMPTIONS = [
     "behaviour of unseen *groups* in 'error' mode is not demanded",
